@@ -318,6 +318,17 @@ fn gen_with_index(r: &mut Rng, scn: &mut Scenario) {
 
 pub fn generate(prop: &str, seed: u64) -> Scenario {
     let mut scn = generate_inner(prop, seed);
+    // astronomically large chunk sizes (the position counter of an indexable source must not wrap, products with
+    // the thread count must not overflow): only where a pull allocates nothing. Iterator-backed sources buffer a
+    // whole chunk (2^32 elements: the process aborts) and overflow `begin + c` inside the dependency for c near
+    // usize::MAX (known finding huge-chunk/iterator-source, probed by C15 with one fixed scenario)
+    if matches!(prop, "C01" | "C02" | "C03" | "C04" | "C05" | "C06" | "C07" | "C13" | "C14") && matches!(scn.src, Src::Vec | Src::SliceCloned | Src::Range) {
+        let mut r = Rng::stream(seed, 0xB16C);
+        if r.chance(1, 30) {
+            let c = *r.pick(&[1usize << 20, (1 << 32) + 1, 1 << 60, 1 << 61, 1 << 62, 1 << 63, usize::MAX]);
+            scn.cs = vec![(0, if r.chance(1, 2) { Chunk::Exact(c) } else { Chunk::Min(c) })];
+        }
+    }
     // one scenario in sixteen starts from a partially consumed concurrent iterator
     if matches!(prop, "C01" | "C02" | "C03" | "C04" | "C07") && scn.src != Src::IterEndless && !scn.src.is_collection() {
         let mut r = Rng::stream(seed, 0x9AE);
@@ -621,6 +632,8 @@ fn generate_inner(prop: &str, seed: u64) -> Scenario {
         }
         "C15" => gen_c15(seed, r, false),
         "C15huge" => gen_c15(seed, r, true),
+        // the one fixed scenario of known finding huge-chunk/iterator-source (whatever the seed)
+        "C15probe" => Scenario::decode("seed=1;src=iterunknown;vals=1,2,3,4,5;ops=map:2:-1;nt=2@0;cs=min18446744073709551615@0;term=collect_vec;policy=spawnerlast;noise=0;avail=4;sched=77;release=0;quiet=0;faults=").expect("probe scenario"),
         _ => {
             let mut scn = base(seed, r, 300, 3, &Src::ALL_FINITE);
             scn.term = gen_any_term(r, &scn);
@@ -1065,6 +1078,20 @@ fn gen_c15(seed: u64, r: &mut Rng, huge: bool) -> Scenario {
             scn.ops = vec![gen_op(r, 1)];
             scn.term = Term::CollectX;
         }
+    }
+    if seed % 6 == 1 && !large {
+        // beyond the seven representative pipelines: chains of two or three transformations (incl. the ones that
+        // materialise an intermediate stage) under any terminal
+        let a = r.below(4);
+        let b = r.below(4);
+        scn.ops = vec![gen_op(r, a), gen_op(r, b)];
+        if r.chance(1, 2) {
+            let c = r.below(4);
+            scn.ops.push(gen_op(r, c));
+        }
+        scn.term = gen_any_term(r, &scn);
+        fit_depth(&mut scn);
+        refresh_pred(r, &mut scn);
     }
     if !large && seed % 41 == 7 {
         // sampled medium lengths (1.1k to 6k elements) with chunk sizes beyond 1024, under schedules that hold one
